@@ -122,4 +122,3 @@ func c09Aggregates(maxAgg, maxRep int) ([]*types.Aggregate, bool, []string) {
 	}
 	return aggs, differing, pool
 }
-
